@@ -344,3 +344,82 @@ Definition call_check (c : call) : bool :=
 Definition hist_check (h : list call) : bool := forallb call_check h.
 (* for the replay file: which calls of the history agree *)
 Definition hist_explain (h : list call) : list bool := map call_check h.
+
+(* ---------------------------------------------------------------- count boundaries: very many rows, few distinct ones
+   One call on n rows (n up to 131073) built from 2-4 distinct (key, block) pairs.  The batch is given run-length encoded,
+   [runs] = (index of a distinct pair, repetitions); [expand] is its meaning.  Every function concerned works row by row
+   (broadcast = map / map2), so the expected result is the per-pair result expanded along the same runs
+   (Proofs/AesCounts.v: map_expand, nth_expand); the check therefore never builds the n rows: row i of the result is compared
+   with the result of the pair that [run_row] finds for i.  The harness exports the rows at the first and last occurrence of
+   every pair, around every power-of-two multiple of 256, the last three rows and a sample; the whole array is additionally
+   compared in Python with these validated per-pair rows. *)
+Definition expand {A} (d : A) (rows : list A) (runs : list (nat * N)) : list A :=
+  flat_map (fun r => repeat (nth (fst r) rows d) (N.to_nat (snd r))) runs.
+
+Fixpoint run_row (runs : list (nat * N)) (i : N) : option nat :=
+  match runs with
+  | [] => None
+  | (k, n) :: t => if i <? n then Some k else run_row t (i - n)
+  end.
+
+Definition runs_total (runs : list (nat * N)) : N := fold_right (fun r acc => snd r + acc) 0 runs.
+
+Inductive big_fn :=
+| BigCipher (dec key_many blk_many : bool) (at_round after_step : option nat)
+| BigPrim (p : prim)
+| BigKs.
+
+Record big_case := {
+  bg_fn : big_fn;
+  bg_pairs : list (list N * list N);      (* the distinct (key, block) pairs; primitives: ([], state); key_schedule: (key, []) *)
+  bg_runs : list (nat * N);
+  bg_shape : list N;                      (* shape of the returned array *)
+  bg_rows : list (N * list N)             (* (row number, the bytes of that row of the result) *)
+}.
+
+Definition big_spec (f : big_fn) (p : list N * list N) : list N :=
+  match f with
+  | BigCipher dec _ _ r s => spec_at dec (fst p) (snd p) r s
+  | BigPrim q => prim_spec q (snd p)
+  | BigKs => concat (ks_spec (fst p))
+  end.
+Definition big_model (f : big_fn) (p : list N * list N) : option (list N) :=
+  match f with
+  | BigCipher dec _ _ r s => cipher1_m dec (fst p) (snd p) r s
+  | BigPrim q => Some (prim_model q (snd p))
+  | BigKs => option_map (@concat N) (key_schedule_m (fst p))
+  end.
+
+Definition all_eq (l : list (list N)) : bool := match l with [] => true | x :: t => forallb (nlist_eqb x) t end.
+
+Definition big_inputs_ok (f : big_fn) (pairs : list (list N * list N)) : bool :=
+  match f with
+  | BigCipher _ km bm _ _ =>
+    rows_ok 16 (map snd pairs) && forallb (fun p => is_bytes (fst p)) pairs
+    && (km || all_eq (map fst pairs)) && (bm || all_eq (map snd pairs)) && (km || bm)
+  | BigPrim q => rows_ok (prim_width q) (map snd pairs)
+  | BigKs => forallb (fun p => is_bytes (fst p)) pairs && all_eq (map (fun p => [N.of_nat (length (fst p))]) pairs)
+  end.
+
+Definition big_shape (f : big_fn) (pairs : list (list N * list N)) (n : N) : list N :=
+  match f with
+  | BigCipher _ _ _ _ _ => [n; 16]
+  | BigPrim q => [n; N.of_nat (prim_width q)]
+  | BigKs => [n; N.of_nat (length (fst (hd ([], []) pairs)) / 4 + 7); 16]
+  end.
+
+Definition big_check (c : big_case) : bool :=
+  let f := bg_fn c in
+  let n := runs_total (bg_runs c) in
+  let spec := map (big_spec f) (bg_pairs c) in
+  let model := map (big_model f) (bg_pairs c) in
+  big_inputs_ok f (bg_pairs c)
+  && (1 <? n) && forallb (fun r => Nat.ltb (fst r) (length (bg_pairs c))) (bg_runs c)
+  && nlist_eqb (big_shape f (bg_pairs c) n) (bg_shape c)
+  && negb (Nat.eqb (length (bg_rows c)) 0)
+  && forallb (fun x => match run_row (bg_runs c) (fst x) with
+                       | Some k => nlist_eqb (nth k spec []) (snd x)
+                                   && option_eqb nlist_eqb (nth k model None) (Some (snd x))
+                       | None => false
+                       end) (bg_rows c).
+Definition big_expected (c : big_case) : list (list N) := map (big_spec (bg_fn c)) (bg_pairs c).
